@@ -192,10 +192,10 @@ Proof.
   - intros j _ Hj. apply iadd_In. auto.
 Qed.
 
-Lemma check_node_idx : forall w grace c cn, idx_inv c -> idx_inv (fst (check_node w grace c cn)).
+Lemma check_node_k_idx : forall w grace c cn kn, idx_inv c -> idx_inv (fst (check_node_k w grace c cn kn)).
 Proof.
-  intros w grace c cn H. unfold check_node.
-  set (kn := knode_for w c cn). set (kex := negb (N.eqb kn 0) && nmem kn (w_knodes w)).
+  intros w grace c cn kn H. unfold check_node_k.
+  set (kex := negb (N.eqb kn 0) && nmem kn (w_knodes w)).
   assert (H1 : idx_inv (fst (fst (fold_left (check_alloc w grace kn kex) (ri_ids cn (c_bynode c)) (c, true, []))))).
   { apply (fold_left_inv (check_alloc w grace kn kex) (fun st => idx_inv (fst (fst st)))); auto.
     intros; apply check_alloc_idx; auto. }
@@ -204,6 +204,13 @@ Proof.
   - eapply idx_inv_same; [apply mark_clean_same|auto].
   - apply fold_left_inv; auto. intros; apply confirm_tunnel_idx; auto.
   - eapply idx_inv_same; [apply mark_clean_same|auto].
+Qed.
+
+Lemma check_node_idx : forall w grace c cn, idx_inv c -> idx_inv (fst (check_node w grace c cn)).
+Proof.
+  intros w grace c cn H. unfold check_node. destruct (knode_for w c cn).
+  - apply check_node_k_idx; auto.
+  - cbn [fst]. eapply idx_inv_same; [apply mark_clean_same|auto].
 Qed.
 
 Lemma check_nodes_idx : forall w grace ns c, idx_inv c -> idx_inv (fst (check_nodes w grace ns c)).
@@ -233,8 +240,9 @@ Qed.
 Lemma rub_visit_idx : forall w grace st b, idx_inv (fst st) -> idx_inv (fst (rub_visit w grace st b)).
 Proof.
   intros w grace [c calls] b H. simpl in H. unfold rub_visit.
-  destruct (mget b (c_empty c)); [|auto].
+  destruct (mget b (c_empty c)) as [n|]; [|auto].
   destruct (Nat.leb _ 1); [auto|].
+  destruct (knode_for w c n); [|cbn [fst]; eapply idx_inv_same; [|exact H]; unfold same_idx; auto].
   pose proof (mark_empty_same (w_now w) grace b c) as Hs.
   destruct (mark_empty (w_now w) grace b c) as [c1 ok]. simpl in Hs.
   pose proof (idx_inv_same _ _ Hs H) as H1.
